@@ -291,7 +291,10 @@ def enum_paths(body, max_paths=4000, start=0, env0=None, unroll=False):
             elif isinstance(e, dict) and "idx" in e:
                 t = ("index", t, term_place(env, {"l": e["idx"], "p": []}))
             elif isinstance(e, dict) and "cidx" in e:
-                t = ("index", t, ("const", e["cidx"], "usize"))
+                if t[0] == "agg" and t[1] == "array" and e["cidx"] < len(t[4]):
+                    t = t[4][e["cidx"]]
+                else:
+                    t = ("index", t, ("const", e["cidx"], "usize"))
             elif isinstance(e, dict) and "dc" in e:
                 t = ("downcast", t, e["dc"], e["vi"])
             elif isinstance(e, dict) and "sub" in e:
